@@ -43,7 +43,8 @@ def import_inference():
     matplotlib.use("Agg")
     mods = ["inference", "inference.mcmc", "inference.mcmc.base", "inference.mcmc.gibbs",
             "inference.mcmc.pca", "inference.mcmc.hmc", "inference.mcmc.ensemble",
-            "inference.mcmc.parallel", "inference.mcmc.utilities"]
+            "inference.mcmc.parallel", "inference.mcmc.utilities", "inference.gp", "inference.gp.regression",
+            "inference.gp.optimisation", "inference.gp.acquisition", "inference.pdf", "inference.plotting"]
     for m in mods:
         importlib.import_module(m)
     inf = sys.modules["inference"]
@@ -77,9 +78,10 @@ def _inference_modules():
 class Seams:
     """Context manager installing replacements for the duration of one run."""
 
-    def __init__(self, sim=None, mp=None, clock=None, quiet=True, tripwires=True):
+    def __init__(self, sim=None, mp=None, clock=None, quiet=True, tripwires=True, sync_pool=False):
         self.sim, self.mp, self.clock, self.quiet = sim, mp, clock, quiet
         self.tripwires = tripwires
+        self.sync_pool = sync_pool
         self._undo = []
 
     def _set(self, obj, name, value):
@@ -106,6 +108,8 @@ class Seams:
                 raise UnseamedNondeterminism("multiprocessing used outside a process simulation")
             for k in ("Process", "Pipe", "Event", "Pool"):
                 repl[id(_REAL[k])] = _no_mp
+            if self.sync_pool:
+                repl[id(_REAL["Pool"])] = SyncPool
         for m in _inference_modules():
             for name, val in list(vars(m).items()):
                 r = repl.get(id(val))
@@ -126,6 +130,8 @@ class Seams:
         if self.mp is not None:
             for k in ("Process", "Pipe", "Event", "Pool"):
                 self._set(multiprocessing, k, home(_REAL[k], getattr(self.mp, k)))
+        elif self.sync_pool:
+            self._set(multiprocessing, "Pool", home(_REAL["Pool"], SyncPool))
 
         if self.tripwires:
             real_thread_start = threading.Thread.start
@@ -167,6 +173,38 @@ def seed_global_streams(seed):
     a, b = ss.generate_state(2)
     np.random.seed(int(a))
     random.seed(int(b))
+
+
+class SyncPool:
+    """multiprocessing.Pool stand-in for code whose use of the pool carries no scheduling
+    property (GP multi-start optimisation): jobs and results are pickled like the real thing and
+    run one after the other in submission order."""
+
+    def __init__(self, processes=None, *a, **k):
+        self.processes = processes
+        c = _ctx.get()
+        if c is not None:
+            c.stats["probe_pool_created"] += 1
+
+    def map(self, func, iterable, chunksize=None):
+        import pickle
+
+        out = []
+        for it in list(iterable):
+            f, x = pickle.loads(pickle.dumps((func, it)))
+            out.append(pickle.loads(pickle.dumps(f(x))))
+        return out
+
+    def close(self):
+        pass
+
+    terminate = join = close
+
+    def __enter__(self):
+        return self
+
+    def __exit__(self, *a):
+        return False
 
 
 class BusyWait(Exception):
